@@ -211,11 +211,11 @@ impl Execution {
 
         let switched = Some(self.threads.active_id()) != next;
 
-        self.threads.set_active(next);
-
-        // There is no active thread. Unless all threads have terminated, the
-        // test has deadlocked.
-        if !self.threads.is_active() {
+        // There is no thread to run. Unless all threads have terminated, the
+        // test has deadlocked. This is reported while the current thread is
+        // still the active one, so that destructors running during the unwind
+        // (guards, `Arc`s, ...) find a consistent execution.
+        if next.is_none() {
             let terminal = self.threads.iter().all(|(_, th)| th.is_terminated());
 
             assert!(
@@ -226,7 +226,11 @@ impl Execution {
                     .map(|(i, th)| { (i, th.state) })
                     .collect::<Vec<_>>()
             );
+        }
 
+        self.threads.set_active(next);
+
+        if !self.threads.is_active() {
             return true;
         }
 
